@@ -423,7 +423,7 @@ func verifC18WriteFile(path string, idx int) (err error) {
 	// Chunked and compressed.
 	chunked := make([]int32, 40*10)
 	for i := range chunked {
-		chunked[i] = int32((i*7 + idx) % 50)
+		chunked[i] = int32((i*7 + idx) % 47)
 	}
 	dsC, err := fw.CreateDataset("/chunked", Int32, []uint64{40, 10}, WithChunkDims([]uint64{10, 5}), WithShuffle(), WithGZIPCompression(6))
 	if err != nil {
@@ -511,6 +511,9 @@ func TestVerifC18_IndependentHandles(t *testing.T) {
 			t.Fatalf("[result-diff] %s seed=%d: two sequential dumps of %s differ (%v): %s", name, seed, p, err, verifC18FirstDiff(d, again))
 		}
 		want[p] = d
+		if os.Getenv("VERIF_C18_DEBUG") != "" {
+			t.Logf("dump of %s:\n%s", p, d)
+		}
 	}
 
 	// Readers: half of them on the same file, the others on different files.
@@ -707,10 +710,14 @@ func (r *verifC18Retained) canon() string {
 // verifC18ChurnPool takes buffers of many sizes out of the pool, scribbles over their
 // whole capacity and gives them back.
 func verifC18ChurnPool(r *rand.Rand, rounds int) {
-	sizes := []int{16, 24, 40, 64, 128, 256, 512, 1024, 4096, 8192, 65536}
+	sizes := []int{16, 24, 40, 64, 128, 256, 512, 1024, 2048, 4096}
+	large := []int{8192, 20000, 65536}
 	held := make([][]byte, 0, 8)
 	for i := 0; i < rounds; i++ {
 		n := sizes[r.Intn(len(sizes))]
+		if r.Intn(16) == 0 {
+			n = large[r.Intn(len(large))]
+		}
 		buf := utils.GetBuffer(n)
 		fill := byte(0xAA)
 		if i%2 == 1 {
@@ -783,7 +790,7 @@ func TestVerifC18_BufferPoolNoAlias(t *testing.T) {
 		}
 	}
 
-	verifC18ChurnPool(rng, 200*iters)
+	verifC18ChurnPool(rng, 50*iters)
 	check("single-goroutine pool churn")
 
 	seeds := make([]int64, 6)
